@@ -28,6 +28,8 @@ From CF Require Import C12.Proofs_read.
 From CF Require Import C12.Refute.
 From CF Require Import C12.Callbacks.
 From CF Require Import C12.Proofs_callbacks.
+From CF Require Import C12.History.
+From CF Require Import C12.Proofs_history.
 Open Scope Z_scope.
 
 (* Success means the image is in flash, byte for byte, at start * page_size — provided positive
@@ -357,3 +359,37 @@ Theorem C12_raise_only_without_progress_cb_refuted :
   zslice (t_flash (deliver cbT tr_bug)) 4 12 <> cbImage.
 Proof. exact raise_only_without_progress_refuted. Qed.
 Print Assumptions C12_raise_only_without_progress_cb_refuted.
+
+(* ------------------------------------------------------------------ several flashes on one Bootloader object *)
+
+(* What an earlier flash on the same object can leave behind is the link's downlink queue and the position in the
+   environment's script; the buffer counter is local and starts at 0.  For every callback configuration, geometry,
+   image and script: outcome, script position, frames and progress messages of _internal_flash do not depend on the
+   queue it finds. *)
+Theorem C12_flash_independent_of_leftover_queue : forall bug cfg addr ps bp fp sp override image q1 q2 scr,
+  noq5 (internal_flash_cb bug cfg addr ps bp fp sp override image q1 scr) =
+  noq5 (internal_flash_cb bug cfg addr ps bp fp sp override image q2 scr).
+Proof. exact internal_flash_cb_queue. Qed.
+Print Assumptions C12_flash_independent_of_leftover_queue.
+
+(* Hence in a history of flashes (each possibly aborted: negative reply, retries exhausted, terminate callback, an
+   exception raised by the link at any frame) the writes of the next flash are a function of its own request and of
+   the script position — the same whatever the previous flash left in the queue, i.e. however it ended. *)
+Theorem C12_flash_starts_from_fresh_state : forall r q1 q2 scr,
+  let '(c1, _, s1, t1) := flash_step r q1 scr in
+  let '(c2, _, s2, t2) := flash_step r q2 scr in
+  c1 = c2 /\ s1 = s2 /\ t1 = t2.
+Proof. exact flash_step_fresh. Qed.
+Print Assumptions C12_flash_starts_from_fresh_state.
+
+(* REFUTATION of a buffer counter that survives an abort (seeded change C12-j): with one page left over in the
+   counter, a one-page image for start page 2 is reported flashed, but flash page 1 — below the start page — now holds
+   the stale contents of buffer page 0 (the code, counter 0, leaves page 1 alone and puts the image at page 2). *)
+Theorem C12_surviving_buffer_counter_refuted :
+  let '(o, _, _, tr) := internal_flash_leftover 1 255 4 2 8 2 None [1;2;3;4] [] [] in
+  let '(o0, _, _, tr0) := internal_flash 255 4 2 8 2 None [1;2;3;4] [] [] in
+  o = Done /\ o0 = Done /\
+  zslice (t_flash (deliver hT tr0)) 4 4 = [7;7;7;7] /\ zslice (t_flash (deliver hT tr0)) 8 4 = [1;2;3;4] /\
+  zslice (t_flash (deliver hT tr)) 4 4 = [61;62;63;64] /\ t_oob (deliver hT tr) = false.
+Proof. exact surviving_counter_refuted. Qed.
+Print Assumptions C12_surviving_buffer_counter_refuted.
